@@ -70,6 +70,38 @@ def cstepLazy (step : S → Op → S × Out) (c : CS S) : CEv Op → CS S × Opt
     ({ c with cache := upd c.cache p (some r.1) }, some (p, r.2))
   | .evict p => ({ c with cache := upd c.cache p none }, none)
 
+/-- the cache as the engine has it (open finding `C13|two-live-copies-of-a-process`): an eviction drops the cache's reference, but a
+scheduler thread that still works on the process keeps its copy (`held`); a later step of that thread runs on the held copy and writes
+it through, over whatever a freshly loaded copy has written meanwhile -/
+structure CS2 (S : Type) where
+  store : String → S
+  cache : String → Option S
+  held : String → Option S
+
+inductive CEv2 (Op : Type) where
+  | access (p : String) (o : Op)        -- through the cache (a client action, a tick)
+  | evict (p : String)                  -- the copy leaves the cache; the thread that was working on it keeps it
+  | heldStep (p : String) (o : Op)      -- that thread goes on with its copy
+
+def cstep2 (step : S → Op → S × Out) (c : CS2 S) : CEv2 Op → CS2 S × Option (String × Out)
+  | .access p o =>
+    let r := step ((c.cache p).getD (c.store p)) o
+    ({ c with store := upd c.store p r.1, cache := upd c.cache p (some r.1) }, some (p, r.2))
+  | .evict p => ({ c with cache := upd c.cache p none, held := upd c.held p (c.cache p) }, none)
+  | .heldStep p o =>
+    match c.held p with
+    | some s =>
+      let r := step s o
+      ({ c with store := upd c.store p r.1, held := upd c.held p (some r.1) }, some (p, r.2))
+    | none => (c, none)
+
+def crun2 (step : S → Op → S × Out) (c : CS2 S) : List (CEv2 Op) → CS2 S × List (String × Out)
+  | [] => (c, [])
+  | e :: es =>
+    let r := cstep2 step c e
+    let rest := crun2 step r.1 es
+    (rest.1, match r.2 with | some o => o :: rest.2 | none => rest.2)
+
 -- ------------------------------------------------------------------ start
 
 /-- `Runtime::start`: refused when the id is present (cache or store), otherwise the process is created -/
